@@ -2,7 +2,8 @@
 From Coq Require Import List NArith ZArith Bool.
 Import ListNotations.
 From Verif Require Import Base.Val C18.Fs C18.FsLemmas C18.Model_C18 C18.Spec_C18 C18.Proofs_C18.
-From Verif Require Import C19.Model_C19 C19.Spec_C19 C19.Proofs_C19.
+From Verif Require Import C18.Exact_C18.
+From Verif Require Import C19.Model_C19 C19.Spec_C19 C19.Proofs_C19 C19.Crash_C19.
 
 (* crash_frame: at EVERY crash point of the merge, a path the merge never names (and whose
    inode it never writes) holds its old node *)
@@ -61,3 +62,24 @@ Theorem dir_metadata_two_step : forall x cp n2 s k m u g t,
             \/ (Some t' = e_mtime x /\ u' = u /\ g' = g)).
 Proof. exact dir_metadata_two_step_proof. Qed.
 Print Assumptions dir_metadata_two_step.
+
+(* crash_atomic for the WHOLE merge on the NoAlias domain of C18.merged_exact, composed from
+   crash_localised and the merge invariant: at EVERY crash point k the state is a crash state of
+   ONE step block [blk] started from a boundary state [sb] in which
+   (a) every path that is not the location of an already processed entry (and not a created
+       missing parent) holds its complete PRE-MERGE node, and
+   (b) every already processed entry is COMPLETELY installed (type, data/target, mode, owner,
+       mtime; an existing directory keeps its mode).
+   What the single unfinished block may do to its own location is stated by copy_crash_atomic,
+   link_crash_atomic and dir_metadata_two_step above. *)
+Theorem crash_atomic_steps : forall i sf k,
+  noalias i = true -> merge_err i = None -> run_opt (merge_ops i) (i_fs i) = Some sf ->
+  exists P sb blk k',
+    incl P (cset_of i) /\ step_block i sb blk /\
+    crash_state (merge_ops i) (i_fs i) k = crash_state blk sb k' /\
+    (forall q, (forall y, In y P -> e_loc y <> q) ->
+       ~ (lookup (i_fs i) q = None /\ exists x, In x (cset_of i) /\ pprefix q (e_loc x)) ->
+       lookup sb q = lookup (i_fs i) q) /\
+    (forall y, In y P -> exists n, lookup sb (e_loc y) = Some n /\ installed (i_fs i) y n).
+Proof. exact crash_atomic_steps_proof. Qed.
+Print Assumptions crash_atomic_steps.
